@@ -7,7 +7,7 @@ CONSTANTS
   Rm = 2
   Rc = 3
   MaxTx = 2
-  MaxSends = 3
+  MaxSends = 2
   MaxInd = 1
   Mech = "none"
   Preset = "none"
@@ -18,7 +18,7 @@ CONSTANTS
   FixD1 = TRUE
   SimDepth = 0
   Msgs <- MsgsA
-  Apps <- AppsSmall
+  Apps <- AppsRich
 CONSTRAINT TimeBound
 VIEW view
 INVARIANT NoMonitorRejects
